@@ -47,22 +47,29 @@ def level_value(lv, maximize):
     return (lv / (8.0 - lv)) if maximize else float(lv)
 
 
-def build_frame(frame, maximize, rng):
+# consistent namings of the abstract track ids: prefixed, bare decimal, and unary strings of different lengths ("1", "11", ...) shared by both
+# sides (so that concatenations of an estimate name and a ground-truth name can coincide for different pairs)
+NAMINGS = [(lambda k: "est-%d" % k, lambda k: "gt-%d" % k), (lambda k: str(k), lambda k: str(k)), (lambda k: "1" * k, lambda k: "1" * k),
+           (lambda k: "ab"[: k] if k <= 2 else "ab" + "x" * k, lambda k: "bc"[2 - k:] if k <= 2 else "q" * k)]
+
+
+def build_frame(frame, maximize, rng, naming=0):
     """real results for one abstract frame"""
     from perception_eval.evaluation.result.object_result import DynamicObjectWithPerceptionResult
 
     from ..build import POLICIES, obj3d
 
+    en, gn = NAMINGS[naming % len(NAMINGS)]
     out = []
     for r in frame:
         base = (20.0 * r["e"], 7.0 * r["g"], 0.0)
-        est = obj3d(base, label=r["el"], score=0.5, uuid="est-%d" % r["e"], vid=r["e"])
+        est = obj3d(base, label=r["el"], score=0.5, uuid=en(r["e"]), vid=r["e"])
         if r["g"] == 0:
             gt = None
         else:
             lv = r["sc"]
             dx = float(lv) if not maximize else (2.0 - lv / 2.0)   # I = 2*(2-dx)
-            gt = obj3d((base[0] + dx, base[1], 0.0), label=r["gl"], score=1.0, uuid="gt-%d" % r["g"], vid=r["g"])
+            gt = obj3d((base[0] + dx, base[1], 0.0), label=r["gl"], score=1.0, uuid=gn(r["g"]), vid=r["g"])
         out.append((est, gt))
     rng.shuffle(out)
     return out
@@ -83,7 +90,7 @@ def replay_hist(arg):
         rng = random.Random(seed)
         frames = []
         for f in hist:
-            frames.append([DynamicObjectWithPerceptionResult(e, g, POLICIES[cfg["policy"]]) for e, g in build_frame(f, maximize, rng)])
+            frames.append([DynamicObjectWithPerceptionResult(e, g, POLICIES[cfg["policy"]]) for e, g in build_frame(f, maximize, rng, naming=seed)])
         thr = 0.0 if cfg["thr"] == 0 else (0.2 if maximize else float(cfg["thr"]))
         G = out["g"]
         rep = {"hist": [sorted(f, key=lambda r: r["e"]) for f in hist], "cfg": cfg, "mode": mode, "spec": out}
@@ -123,6 +130,7 @@ def _rand_history(rng: random.Random):
     from ..build import obj3d
 
     nfr = rng.choice([1, 2, 3, 5, 5, 10, 10, 25, 60])
+    en, gn = NAMINGS[rng.randrange(len(NAMINGS))]
     ntracks = rng.randint(1, 12)
     mode = rng.choice(["center", "plane", "iou2d", "iou3d"])
     policy = rng.choice(["DEFAULT", "ALLOW_UNKNOWN", "ALLOW_ANY"])
@@ -159,14 +167,14 @@ def _rand_history(rng: random.Random):
             el = "car" if rng.random() < 0.85 else "unknown"
             yaw = rng.uniform(0, math.pi)
             est = obj3d((gx + off * math.cos(ang), gy + off * math.sin(ang), z), yaw=yaw, size=(2.0, 4.5, 1.6), label=el, score=rng.random(),
-                        uuid="est-%d" % e, vid=e)
+                        uuid=en(e), vid=e)
             gt = obj3d((gx, gy, z), yaw=yaw + rng.choice([0, 0.05, 0.3]), size=(2.0 * rng.uniform(0.9, 1.1), 4.5 * rng.uniform(0.9, 1.1), 1.6),
-                       label=glabel[k], score=1.0, uuid="gt-%d" % k, vid=k)
+                       label=glabel[k], score=1.0, uuid=gn(k), vid=k)
             fr.append((est, gt))
         for _ in range(rng.choice([0, 0, 1, 2])):  # unmatched estimates
             e = next_id
             next_id += 1
-            est = obj3d((rng.uniform(-40, 40), rng.uniform(-40, 40), 0.0), label="car", score=rng.random(), uuid="est-%d" % e, vid=e)
+            est = obj3d((rng.uniform(-40, 40), rng.uniform(-40, 40), 0.0), label="car", score=rng.random(), uuid=en(e), vid=e)
             fr.append((est, None))
         rng.shuffle(fr)
         frames.append(fr)
